@@ -687,6 +687,12 @@ func (g *c20Gen) tx(i int) *gobinlog.Transaction {
 			if ev.Query.SQL == "" {
 				ev.Query.SQL = "BEGIN"
 			}
+			if r.Chance(1, 2) {
+				// the session character set the query event announced: whatever it
+				// says, the text is rendered as it is (latin1 = 8, binary = 63, ...)
+				cs := []int32{8, 63, 33, 45, 255, 1, 28, 0, int32(r.Intn(300))}
+				ev.Query.Charset = &replication.Charset{Client: cs[r.Intn(len(cs))], Conn: cs[r.Intn(len(cs))], Server: cs[r.Intn(len(cs))]}
+			}
 			if r.Chance(1, 4) { // rows next to SQL are legal values of the struct; they are not serialised
 				ev.RowValues = g.rows(i, &counter)
 			}
